@@ -14,7 +14,7 @@ m = {
     "setup_cmd": "cd /verif/replay && CARGO_NET_OFFLINE=true cargo build --offline -q && CARGO_NET_OFFLINE=true cargo build --offline -q --release && cd /verif && python3 tools/verus_run.py codec >/dev/null",
     "hooks": {
         "guard": "none in /repo: Kani harness modules are appended under #[cfg(kani)] to a scratch copy of the working tree at check time; Verus units are extracted from the working tree at check time",
-        "enable": "tools/kani_run.py overlays /verif/kani/*.rs on a scratch copy (rsync of /repo's working tree) and runs cargo kani there; tools/vgen.py extracts items from /repo/src into /verif/build/<unit>.rs",
+        "enable": "tools/kani_run.py overlays /verif/kani/*.rs on a scratch copy (rsync of /repo's working tree) and runs cargo kani there; tools/vgen.py extracts items from /repo/src into a private directory under /verif/build/ for each run",
         "baseline_off_cmd": "cd /repo && cargo test --workspace --no-fail-fast --offline",
         "source_commits": [c for c in fix_commits if c],
         "add_only": True,
@@ -25,7 +25,7 @@ m = {
         {"name": "kani", "path": "/verif/tools/kani_run.py", "serves_properties": sorted(p for p, c in props.PROPS.items() if c.get("kani")),
          "kind_free_text": "Kani/CBMC harnesses on the real crate (closed-term and full-domain = complete; bounded = stand-in, labelled)"},
         {"name": "replay", "path": "/verif/replay", "serves_properties": sorted(props.PROPS),
-         "kind_free_text": "executable postconditions run against the real crate: witness search and replay only, never the deciding step"},
+         "kind_free_text": "executable postconditions and property oracles run against the real crate: witness search, replay, and the bounded stand-ins for sentences no contract reaches (always labelled bounded, never counted as proved)"},
     ],
     "checks": [],
     "not_applicable": [],
